@@ -412,3 +412,80 @@ func init() {
 		Outside: []string{"outside: secondary/primary keys longer than the L bound; encoded primaries >= 256 bytes (length suffix high byte); netip-typed encoders (net/netip internals are not executed)"},
 	})
 }
+
+func fanRuns(fans []int, n int, extra map[string]int) []HarnessRun {
+	var out []HarnessRun
+	for _, f := range fans {
+		p := map[string]int{"FAN": f, "N": n}
+		for k, v := range extra {
+			p[k] = v
+		}
+		out = append(out, HarnessRun{Entry: "VerifC11Fanout", Params: p, Covers: []string{"C11.fan.end"}, DiffRuns: 10})
+	}
+	return out
+}
+
+func init() {
+	c11covers := []string{"C11.replaced-existing", "C11.deleted-existing", "C11.deleted-absent", "C11.branched", "C11.kept-version-compared", "C11.kept-iterator-compared", "C11.end"}
+	reg(&CheckSpec{
+		ID: "C11", PkgDir: "part",
+		Quick: append([]HarnessRun{
+			{Entry: "VerifC11Driver", Params: map[string]int{"N": 3, "L": 1}, Covers: c11covers, DiffRuns: 60},
+			{Entry: "VerifC11Driver", Params: map[string]int{"N": 2, "L": 2}, Covers: c11covers, DiffRuns: 60},
+		}, fanRuns([]int{4, 5, 16, 17, 48, 49}, 1, nil)...),
+		Thorough: append(append(append([]HarnessRun{
+			{Entry: "VerifC11Driver", Params: map[string]int{"N": 3, "L": 2}, Covers: c11covers, DiffRuns: 100},
+			{Entry: "VerifC11Driver", Params: map[string]int{"N": 4, "L": 1}, Covers: c11covers, DiffRuns: 100},
+			{Entry: "VerifC11Driver", Params: map[string]int{"N": 3, "L": 1, "ROOTONLY": 1}, Covers: c11covers, DiffRuns: 20},
+		}, fanRuns([]int{3, 4, 5, 15, 16, 17, 47, 48, 49}, 2, map[string]int{"QTAIL": 1, "KTAIL": 1})...),
+			fanRuns([]int{4, 5, 16, 17, 48, 49}, 1, map[string]int{"DEEP": 1})...),
+			fanRuns([]int{4, 5, 16, 17, 48, 49, 256}, 1, map[string]int{"INNERLEAF": 1})...),
+		Outside: []string{"outside: keys longer than L bytes except through the fan-out families (shared prefix byte + <=2 symbolic bytes drawn from an 8-value alphabet around the children's keys); keys >= 64 KiB"},
+	})
+	w := func(n1, n2, l, rootonly, mw int) HarnessRun {
+		return HarnessRun{Entry: "VerifC12Watch", Params: map[string]int{"N1": n1, "N2": n2, "L": l, "ROOTONLY": rootonly, "MODIFYWATCH": mw},
+			Covers: []string{"C12.committed", "C12.commit-no-notify", "C12.abandoned", "C12.delete-absent", "C12.end"}, DiffRuns: 30}
+	}
+	reg(&CheckSpec{
+		ID: "C12", PkgDir: "part",
+		Quick:    []HarnessRun{w(1, 2, 1, 0, 0), w(1, 2, 1, 1, 0), w(2, 1, 1, 0, 1), w(1, 1, 2, 0, 0), w(1, 1, 2, 1, 0)},
+		Thorough: []HarnessRun{w(2, 2, 1, 0, 0), w(2, 2, 1, 1, 1), w(2, 1, 2, 0, 1), w(2, 1, 2, 1, 0), w(1, 2, 2, 0, 0)},
+		Outside:  []string{"outside: trees deeper than the keys of length <= L allow; more than N1 pre-state keys and N2 later operations; channels of write-transaction queries"},
+	})
+}
+
+func init() {
+	c13 := func(n, w, plset, check int, diff int) HarnessRun {
+		p := map[string]int{"N": n, "W": w, "CHECK": check}
+		if plset >= 0 {
+			p["PLSET"] = plset
+		}
+		return HarnessRun{Entry: "VerifC13Driver", Params: p, Covers: []string{"C13.replaced", "C13.deleted-existing", "C13.branched", "C13.kept-iterator-compared", "C13.end"}, DiffRuns: diff}
+	}
+	reg(&CheckSpec{
+		ID: "C13", PkgDir: "lpm",
+		// PLSET 291 = prefix lengths {0,1,5,8}; 99203 = {0,1,7,8,9,15,16}
+		Quick:    []HarnessRun{c13(2, 8, 291, 0, 60), c13(2, 8, 291, 1, 60), c13(2, 8, -1, 0, 30)},
+		Thorough: []HarnessRun{c13(2, 8, -1, 0, 60), c13(2, 8, -1, 1, 60), c13(3, 8, 291, 0, 60), c13(3, 8, 291, 1, 60), c13(2, 16, 99203, 0, 30), c13(2, 16, 99203, 1, 30)},
+		Outside: []string{"outside: keys wider than W bits (8 quick, 16 thorough; the trie logic is width-generic, width is a loop bound only), prefix lengths outside the listed PLSET in runs that restrict it, more than N operations; Lookup of a non-stored shorter-than-full key is not asserted (undefined by the statement); netip conversion helpers"},
+	})
+	c17m := func(n, l, ops int) HarnessRun {
+		return HarnessRun{Entry: "VerifC17Map", Params: map[string]int{"N": n, "L": l, "OPS": ops}, Covers: []string{"C17.map.end"}, DiffRuns: 40, MapOrder: true}
+	}
+	reg(&CheckSpec{
+		ID: "C17", PkgDir: "part",
+		// OPS bits: 1 Set, 2 Delete, 4 FromMap, 8 Txn, 16 Txn reused after Commit
+		Quick: []HarnessRun{
+			c17m(2, 1, 7), c17m(1, 1, 24), c17m(3, 1, 3),
+			{Entry: "VerifC17Set", Params: map[string]int{"N": 2, "L": 1}, Covers: []string{"C17.set.end", "C17.set.union", "C17.set.difference"}, DiffRuns: 40},
+			{Entry: "VerifKFFromMapSingleton"}, {Entry: "VerifKFMapTxnReuse"},
+		},
+		Thorough: []HarnessRun{
+			c17m(2, 1, 31), c17m(3, 1, 7), c17m(2, 2, 7),
+			{Entry: "VerifC17Set", Params: map[string]int{"N": 3, "L": 1}, Covers: []string{"C17.set.end", "C17.set.union", "C17.set.difference"}, DiffRuns: 40},
+			{Entry: "VerifKFFromMapSingleton"}, {Entry: "VerifKFMapTxnReuse"},
+		},
+		Known: []KnownProbe{{ID: "KF-frommap-singleton", Entry: "VerifKFFromMapSingleton"}, {ID: "KF-maptxn-reuse", Entry: "VerifKFMapTxnReuse"}},
+		Outside: []string{"outside (not encodable): the JSON/YAML round-trip clause of C17 - encoding/json and yaml.v3 are reflection-driven libraries that the VM does not execute; keys longer than L; hash maps with more than 2 entries in FromMap; Map[string,uint64] and Set[string] instantiations only"},
+	})
+}
